@@ -22,6 +22,22 @@ def gen_base(seed, i):
         from . import c19
         sc, _ = c19.gen_scenario(seed, 4 * i)      # (4*i is never in c19's own evict/restart family)
         return sc["models"][0], {}, sc["ops"], rng
+    if i % 12 == 9:
+        # chains of generated acts with three and more links (sequence over 3..5 values, 1..3 acts per group), reloaded at every quiescent point
+        nv = rng.range(3, 5)
+        acts = [{"uses": gen.IRQ, "key": "g0"}] + [{"uses": rng.pick([gen.IRQ, gen.MSG]), "key": f"g{q}"} for q in range(1, rng.range(1, 3))]
+        if rng.chance(1, 2):
+            # explicit ids inside the generator: every group then has nodes of the same ids
+            for q, a in enumerate(acts):
+                a["id"] = f"x{q}"
+        w = {"id": "m1", "steps": [{"id": "s1", "acts": [{"id": "a1", "uses": rng.pick(["acts.core.sequence", "acts.core.sequence", "acts.core.parallel"]),
+                                                          "params": {"in": [f"u{q}" for q in range(nv)], "acts": acts}},
+                                                         {"id": "a2", "uses": gen.IRQ, "key": "ka2"}]}]}
+        ops = [["deploy", 0], ["start", "m1", {"pid": "p1"}], ["runall"]]
+        for _ in range(nv * len(acts) + 3):
+            ops.append(["act", "next", "p1", {"open": 0}, {"n1": rng.below(90)}])
+            ops.append(["runall"])
+        return w, {}, ops, rng
     if i % 6 == 5:
         # a catch takes an error, the process is reloaded while the handler waits, the handler fails (or ends): the once-only marks of catches
         # and everything else a revived task carries have to come back from the store
@@ -141,7 +157,7 @@ def run(ctx):
         cuts = set(rng.shuffle(quiescent)[:ncut])
         if len(ops) > 40:
             cuts.add(quiescent[len(quiescent) - 1 - rng.below(5)])
-        if i % 6 == 5 or i % 12 == 2:
+        if i % 6 == 5 or i % 12 == 2 or i % 12 == 9:
             cuts = set(quiescent)      # the catch family and the timeout family are reloaded at every quiescent point
         cfg = {"keep": True, "store": store, "dump_each": True}
         a = {"id": f"c12-{i}-A", "config": cfg, "models": [w], "ops": ops, "exprs": exprs}
